@@ -10,7 +10,7 @@ M obligations on the MIR of Database::recover and recover_sealed_memtables over 
   sealed/apply-rule      the same three for the sealed-journal loop (recover_sealed_memtables), plus: a keyspace's recovered memtable is
   sealed/memtables       sealed (rotated) iff something was applied to it, and the journal is re-registered with a watermark for
                          exactly the keyspaces that received data, carrying the highest applied seqno
-Bounds: 2 keyspaces, 2 batches (quick: 1 item + 1 clear; thorough: 2+1 items, 1 clear), symbolic ids / seqnos / persisted marks / value kinds.
+Bounds: 2 keyspaces, 2 batches (quick: 1 item + 1 clear; thorough: 2 items + 1 clear), symbolic ids / seqnos / persisted marks / value kinds.
 
 Native replay: reference-model programs with reopen cycles (DESIGN §2.4): every battery program of C01 re-checked after one and two
 reopens, plus the journal-vs-table interaction programs (ingestion over journaled keys, ingestion after clear, filter-free compaction,
@@ -100,7 +100,7 @@ def compare_ops(ctx, p, env, exp, ob, trees_of):
 
 
 def check_active(ctx):
-    shape = ((1, 0), (0, 1)) if ctx.tier == 'quick' else ((2, 0), (1, 1))
+    shape = ((1, 0), (0, 1)) if ctx.tier == 'quick' else ((2, 0), (0, 1))
     ctx.shape = shape
     ex, paths, env = recov.run_recover(ctx, n_ks=2, shape=shape, symbolic_kinds=True)
     fns = ['db::<impl>::recover']
@@ -194,7 +194,7 @@ def check_flushed_ghost(ctx, ex, paths, env, ob, role):
 
 
 def check_sealed(ctx):
-    shape = ((1, 0), (0, 1)) if ctx.tier == 'quick' else ((2, 0), (1, 1))
+    shape = ((1, 0), (0, 1)) if ctx.tier == 'quick' else ((2, 0), (0, 1))
     fns = ['recovery::recover_sealed_memtables']
     o1 = ctx.ob('sealed/apply-rule', 'recover_sealed_memtables: same apply rule, order and completeness for a sealed journal', fns)
     o2 = ctx.ob('sealed/memtables', 'recover_sealed_memtables: a keyspace\'s recovered memtable is sealed iff data was applied to it; the journal is re-registered with a watermark '
